@@ -257,10 +257,16 @@ fn verdict_json(v: &Verdict) -> Value {
     }
 }
 
-pub fn run_suite(suite: &str, props: &BTreeSet<String>, tier: &str, seed: u64, si: usize, sn: usize, miniwasm: bool, only: Option<&str>) -> Value {
+pub fn run_suite(suite: &str, props: &BTreeSet<String>, tier: &str, seed: u64, si: usize, sn: usize, miniwasm: bool, only: Option<&str>, ops: &[String]) -> Value {
     let t0 = Instant::now();
     let filter = Filter { props: props.clone() };
-    let all = cases(suite, tier, seed, props);
+    let mut all = cases(suite, tier, seed, props);
+    if !ops.is_empty() {
+        all.retain(|c| {
+            let op = c.name.splitn(3, ':').nth(2).unwrap_or("");
+            ops.iter().any(|k| op.starts_with(k.as_str()))
+        });
+    }
     let total_cases = all.len();
     let mut n_cases = 0;
     let mut n_paths = 0u64;
@@ -318,7 +324,7 @@ pub fn run_suite(suite: &str, props: &BTreeSet<String>, tier: &str, seed: u64, s
         "total_cases": total_cases, "cases": n_cases, "paths": n_paths, "outcomes": outcomes,
         "by_label": by_label.iter().map(|(k, v)| (k.clone(), json!({"proved": v[0], "refuted": v[1], "unknown": v[2]}))).collect::<serde_json::Map<String, Value>>(),
         "failures": failures, "engine_errors": engine_errors, "samples": samples,
-        "solver": {"queries": st.queries, "cache_hits": st.cache_hits, "solver_ms": st.solver_ms as u64, "unknowns": st.unknowns, "errors": st.errors, "forks": st.forks, "decisions": st.decisions,
+        "solver": {"queries": st.queries, "cache_hits": st.cache_hits, "solver_ms": st.solver_ms as u64, "unknowns": st.unknowns, "errors": st.errors, "forks": st.forks, "decisions": st.decisions, "fallback_queries": st.fallback_queries,
                    "xcheck_queries": st.xcheck_queries, "xcheck_disagree": st.xcheck_disagree, "xcheck_unknown": st.xcheck_unknown, "xcheck_ms": st.xcheck_ms as u64},
         "wall_s": t0.elapsed().as_secs_f64(),
     })
